@@ -44,6 +44,7 @@ def union_word_leaf(word, align_of=None):
 def tag_rules(F, rep, tag, gen, rule="R-TAG"):
     """Constructors store `into_raw | tag`, the test reads bit 0, `borrow` strips exactly the tag: evaluated on sample words."""
     bits = F.pointer_bits
+    SAMPLES = [P for P in globals()["SAMPLES"] if P < (1 << bits)]  # (addresses of the target's width)
     symx.set_facts(F)
     # ------------------------------------------------------------- R-TAG: constructors
     for name, idx in (("from_first", 0), ("from_second", 1)):
